@@ -86,6 +86,11 @@ class IkeSaController:
                 self.ike_sas.remove(ike_sa)
             return None
 
+        # an IKE_SA created for a request that was then ignored (wrong flags or Message ID) is of no use either
+        if new_ike_sa and ike_sa.state == IkeSa.State.INITIAL:
+            self.ike_sas.remove(ike_sa)
+            return reply
+
         # if rekeyed, add the new IkeSa
         if (ike_sa.state in (IkeSa.State.REKEYED, IkeSa.State.DEL_AFTER_REKEY_IKE_SA_REQ_SENT)
                 and ike_sa.new_ike_sa is not None):
